@@ -1,5 +1,6 @@
 """Programs of the first-order expression fragment modelled by SslModel.Model.Check (literals, variables, arrays,
-tuples, prefix ! / -, && / ||, scalar binary operators, indexing, tuple access, if / else, blocks, `:=`), over free
+tuples, prefix ! / -, && / ||, scalar binary operators, indexing, tuple access, if / else, `if x: T = e`, match, blocks,
+`:=`), over free
 variables of given static types that the folder cannot see through (`p := *(mut T v)`).
 
 Every compound expression contains a variable, so that constant folding (which narrows static types: `if true`,
@@ -19,6 +20,8 @@ FREE = [
     ("pua", multi(arr(INT), STR), ("array", [I(5)])), ("pv", VOID, ("unit",)), ("pbu", multi(BOOL, INT), ("false",)),
     ("ptt", tup(tup(INT, FLOAT), BOOL), ("tuple", [("tuple", [I(1), ("f", 2.0)]), ("true",)])),
 ]
+
+SET_TYPES = [INT, FLOAT, STR, BOOL, arr(INT), multi(INT, FLOAT), multi(INT, STR), arr(multi(INT, FLOAT)), tup(INT, STR), ("any",), VOID, arr(("any",))]
 
 BINOPS = ["add", "sub", "mul", "div", "mod", "pow", "eq", "ne", "gt", "ge", "lt", "le", "band", "bor", "bxor", "shl", "shr"]
 
@@ -47,7 +50,7 @@ class Gen:
         r = self.rnd
         if d <= 0:
             return self.leaf(names)
-        k = r.choice(["leaf", "bin", "bin", "bin", "pre", "and", "array", "tuple", "at", "at", "tacc", "if", "if", "block"])
+        k = r.choice(["leaf", "bin", "bin", "bin", "pre", "and", "array", "tuple", "at", "at", "tacc", "if", "if", "block", "ifset", "match"])
         sub = lambda: self.expr(names, d - 1)
         if k == "leaf":
             return self.leaf(names)
@@ -67,6 +70,22 @@ class Gen:
             e = ("tacc", sub(), r.randint(0, 2))
         elif k == "if":
             e = ("if", sub(), ("block", self.stmts(list(names), d - 1, r.randint(1, 2))), ("block", self.stmts(list(names), d - 1, r.randint(1, 2))) if r.random() < 0.7 else None)
+        elif k == "ifset":
+            x = r.choice(["x", "y", "pi"])
+            e = ("ifset", x, r.choice(SET_TYPES), sub(), ("block", self.stmts(list(names) + [x], d - 1, r.randint(1, 2))),
+                 ("block", self.stmts(list(names), d - 1, r.randint(1, 2))) if r.random() < 0.7 else None)
+        elif k == "match":
+            arms = []
+            for _ in range(r.randint(0, 3)):
+                kk = r.choice(["ty", "ty", "val", "other"])
+                if kk == "ty":
+                    x = r.choice(["x", "y", "pi"])
+                    arms.append(("ty", x, r.choice(SET_TYPES), ("block", self.stmts(list(names) + [x], d - 1, 1))))
+                elif kk == "val":
+                    arms.append(("val", [self.leaf(names) for _ in range(r.randint(1, 2))], ("block", self.stmts(list(names), d - 1, 1))))
+                else:
+                    arms.append(("other", ("block", self.stmts(list(names), d - 1, 1))))
+            e = ("match", sub(), arms)
         else:
             e = ("block", self.stmts(list(names), d - 1, r.randint(0, 3)))
         return self.fix(e, names)
@@ -90,6 +109,12 @@ class Gen:
         elif k == "if":
             if not has_var(e[1]):
                 e = (k, ("bin", "eq", self.leaf(names, True), e[1]), e[2], e[3])
+        elif k == "ifset":
+            if not has_var(e[3]):
+                e = e[:3] + (self.leaf(names, True),) + e[4:]
+        elif k == "match":
+            if not has_var(e[1]):
+                e = (k, self.leaf(names, True), e[2])
         return e
 
     # ---- type-directed generation (mostly well-typed; `noise` = chance of an operand of a random other type)
@@ -100,6 +125,9 @@ class Gen:
         r = self.rnd
         if r.random() < noise:
             ty = r.choice(self.TYPES)
+        unions = [(n, t) for n, t in env if t[0] == "multi"]
+        if d > 0 and unions and r.random() < 0.18:
+            return self.narrow(ty, env, d, noise, unions)
         vars_ = [n for n, t in env if t == ty]
         def var_or(lit):
             if vars_ and r.random() < 0.8:
@@ -198,6 +226,33 @@ class Gen:
             a, b = r.sample(ms, 2) if len(ms) >= 2 else (ms[0], ms[0])
             return self.fix(("if", sub(BOOL), self.tblock(a, env, d - 1, noise), self.tblock(b, env, d - 1, noise)), [n for n, _ in env])
         return anyv()
+
+    def narrow(self, ty, env, d, noise, unions):
+        """an expression of type `ty` that takes a union-typed variable apart with `if x: T = u` or `match u`"""
+        r = self.rnd
+        u, ut = r.choice(unions)
+        ms = list(ut[1])
+        binder = r.choice(["x", "y", "pi"])
+        def body(m):
+            e2 = [(binder, m)] + [(n, t) for n, t in env if n != binder]
+            return self.tblock(ty, e2, d - 1, noise)
+        if r.random() < 0.5:
+            m = r.choice(ms + [multi(*ms)] if r.random() < 0.9 else SET_TYPES)
+            return ("ifset", binder, m, V(u), body(m), self.tblock(ty, env, d - 1, noise))
+        arms = []
+        if r.random() < 0.3:
+            arms.append(("val", [self.typed(r.choice(ms), env, 0, noise)], self.tblock(ty, env, d - 1, noise)))
+        order = ms[:]
+        r.shuffle(order)
+        drop = r.random()
+        for j, m in enumerate(order):
+            if j == len(order) - 1 and drop < 0.35:
+                arms.append(("other", self.tblock(ty, env, d - 1, noise)))      # default arm instead of the last member
+            elif j == len(order) - 1 and drop < 0.35 + noise:
+                pass                                                           # not covered: must be rejected
+            else:
+                arms.append(("ty", binder, m, body(m)))
+        return ("match", V(u), arms)
 
     def tblock(self, ty, env, d, noise):
         env = list(env)
